@@ -429,17 +429,37 @@ class FormatedSeg(typ.NamedTuple):
     result    : str
 
 
+def _iter_segment_parts(seg: str) -> typ.List[typ.Tuple[int, int, str]]:
+    """Find the parts of a segment, the same way they are found for the regular expression.
+
+    See v2patterns._replace_pattern_parts: right before left, longer before shorter.
+
+    >>> _iter_segment_parts("20YY-0M")
+    [(5, 7, '0M'), (2, 4, 'YY')]
+    >>> _iter_segment_parts("YYYYW0W")
+    [(5, 7, '0W'), (0, 4, 'YYYY')]
+    """
+    candidates: typ.List[typ.Tuple[int, int, int, str]] = []
+    for part in v2patterns.PATTERN_PART_FIELDS:
+        end_idx = 0
+        while True:
+            start_idx = seg.find(part, end_idx)
+            if start_idx < 0:
+                break
+            end_idx = start_idx + len(part)
+            candidates.append((-end_idx, -len(part), start_idx, part))
+
+    last_start_idx = len(seg) + 1
+    parts: typ.List[typ.Tuple[int, int, str]] = []
+    for neg_end_idx, _, start_idx, part in sorted(candidates):
+        if -neg_end_idx <= last_start_idx:
+            parts.append((start_idx, -neg_end_idx, part))
+            last_start_idx = start_idx
+    return parts
+
+
 def _format_segment(seg: Segment, part_values: PartValues) -> FormatedSeg:
     zero_part_count = 0
-
-    # find all parts, regardless of zero value
-    used_parts: typ.List[typ.Tuple[str, str]] = []
-
-    for part, part_value in part_values:
-        if part in seg:
-            used_parts.append((part, part_value))
-            if version.is_zero_val(part, part_value):
-                zero_part_count += 1
 
     result = seg
     # remove regex chars
@@ -450,12 +470,20 @@ def _format_segment(seg: Segment, part_values: PartValues) -> FormatedSeg:
     result = result.replace(r"\[", r"[")
     result = result.replace(r"\]", r"]")
 
-    if used_parts:
-        # NOTE: in a single pass, so that a substituted value together with
-        #   a literal is never taken for a part ("2020" + "W0W" has "0W" twice).
-        used_part_values = dict(used_parts)
-        used_parts_re    = "|".join(re.escape(part) for part, _ in used_parts)
-        result = re.sub(used_parts_re, lambda match: used_part_values[match.group(0)], result)
+    # find all parts, regardless of zero value
+    used_parts: typ.List[typ.Tuple[str, str]] = []
+    part_value_by_name = dict(part_values)
+
+    # NOTE: The parts are found by position (right before left), so that a literal together
+    #   with a part ("20YY") or with a value ("2020" + "W0W") is never taken for another part.
+    for start_idx, end_idx, part in _iter_segment_parts(result):
+        if part not in part_value_by_name:
+            continue
+        part_value = part_value_by_name[part]
+        used_parts.append((part, part_value))
+        if version.is_zero_val(part, part_value):
+            zero_part_count += 1
+        result = result[:start_idx] + part_value + result[end_idx:]
 
     # If a segment has no parts at all, it is a literal string
     # (typically a prefix or sufix) and should be output as is.
